@@ -5,9 +5,11 @@ import (
 
 	sdk "github.com/cosmos/cosmos-sdk/types"
 
+	auctionv1types "github.com/comdex-official/comdex/x/auction/types"
 	auctionsv2types "github.com/comdex-official/comdex/x/auctionsV2/types"
 	esmtypes "github.com/comdex-official/comdex/x/esm/types"
 	lendtypes "github.com/comdex-official/comdex/x/lend/types"
+	liqv1types "github.com/comdex-official/comdex/x/liquidation/types"
 	liqv2types "github.com/comdex-official/comdex/x/liquidationsV2/types"
 	"github.com/comdex-official/comdex/x/liquidity/amm"
 	liquiditytypes "github.com/comdex-official/comdex/x/liquidity/types"
@@ -55,8 +57,12 @@ func (g *Gen) Base() {
 	}
 	g.next(13 * 3600) // epoch + farming queue
 	g.trade(1)
+	g.trade(3)
 	g.next(13 * 3600)
 	g.trade(2)
+	g.trade(3)
+	g.next(13 * 3600)
+	g.trade(3)
 	g.next(6)
 	// whale vault: its draw-down fee pushes the collector's net fees over the surplus threshold
 	g.msg("vault.create", vaulttypes.NewMsgCreateRequest(U("u5"), AppHarbor, 1, i(9_000_000_000), i(2_500_000_000)))
@@ -65,11 +71,14 @@ func (g *Gen) Base() {
 	g.bidAll()
 	// price move 1: vault collateral A2 2.0 -> 1.0 (vaults 4 and 5 become unsafe; the sweep of the next block seizes them)
 	g.step(cfgStep("env.price", priceArg{Asset: A2, Twa: 1000000, Active: true}))
+	// the V1 liquidation message still works (its begin blocker is not wired): it seizes vault 5 before the V2 sweep
+	g.msg("liqv1.liquidate", liqv1types.NewMsgLiquidateRequest(U("u6"), AppHarbor, 5))
 	for p := int64(1); p <= 24; p += 2 { // limit bids on many discount levels: some are hit while the Dutch price falls
 		g.msg("aucv2.limitbid", auctionsv2types.NewMsgDepositLimitBid(U(Users[p%4]).String(), A2, A3, i(p), coin("uasset3", 150_000+p*1000)))
 	}
 	g.next(6)
 	g.msg("liqv2.internal", liqV2Internal(U("u6"), 6))
+	g.msg("aucv1.bid.dutch", auctionv1types.NewMsgPlaceDutchBid(U("u3").String(), 1, coin("uasset2", 100_000), AppHarbor, 3))
 	g.bidAll()
 	for k := 0; k < 6; k++ {
 		g.next(290)
@@ -104,6 +113,9 @@ func (g *Gen) PadTo(h int64) {
 	g.next(6)
 	g.next(13 * 3600) // swap-fee gauges: the converted fees of the two pools of pair 1 are shared by pool liquidity
 	g.trade(1)
+	g.trade(3)
+	g.next(13 * 3600)
+	g.trade(3)
 	g.next(13 * 3600)
 	g.next(6)
 }
@@ -252,6 +264,9 @@ func (g *Gen) swapOpen() {
 	g.msg("liquidity.createpool", liquiditytypes.NewMsgCreatePool(AppSwap, U("u2"), 2, sdk.NewCoins(coin("ucmdx", 2_000_000_000), coin("uasset3", 2_000_000_000))))
 	g.msg("liquidity.createpair", liquiditytypes.NewMsgCreatePair(AppSwap, U("u3"), "uasset2", "ucmdx"))
 	g.msg("liquidity.createpool", liquiditytypes.NewMsgCreatePool(AppSwap, U("u3"), 3, sdk.NewCoins(coin("uasset2", 1_500_000_000), coin("ucmdx", 3_000_000_000))))
+	// a second pool on the pair whose quote coin IS the swap-fee distribution denom: every swap-fee epoch shares the
+	// accumulated fees between the two pools by liquidity (x/liquidity/keeper/pool.go, map of pool liquidities)
+	g.msg("liquidity.createranged", liquiditytypes.NewMsgCreateRangedPool(AppSwap, U("u4"), 3, sdk.NewCoins(coin("uasset2", 400_000_000), coin("ucmdx", 800_000_000)), d("1.8"), d("2.2"), d("2.0")))
 	for k, u := range []string{"u3", "u4", "u5", "u6"} {
 		g.msg("liquidity.deposit", liquiditytypes.NewMsgDeposit(AppSwap, U(u), 1, sdk.NewCoins(coin("uasset1", int64(100_000_007*(k+1))), coin("uasset2", int64(100_000_007*(k+1))))))
 		g.msg("liquidity.deposit", liquiditytypes.NewMsgDeposit(AppSwap, U(u), 2, sdk.NewCoins(coin("uasset1", int64(33_000_001*(k+1))), coin("uasset2", int64(33_000_001*(k+1))))))
